@@ -300,7 +300,7 @@ def run_unit(unit, repo='/repo', outdir=None, solver='z3', canary=True, timeout=
         res['wall_s'] = time.time() - t0
         return res
     # every lifted function must appear in Verus' breakdown (anti-vacuity (a))
-    missing = [f['name'] for f in res['functions'] if f['success'] is None and not f['name'].startswith('const ')]
+    missing = [f['name'] for f in res['functions'] if f['success'] is None and not f.get('is_const') and not f['name'].startswith(('const ', 'enum ', 'struct '))]
     if missing:
         res['status'] = 'undecided'
         res['undecided_reason'] = 'no verification verdict reported for lifted function(s): %s' % ', '.join(missing)
